@@ -327,6 +327,30 @@ def gen_scaled(rng):
     return {"c": c, "A": A, "b": b, "minimize": base["minimize"], "max_iter": None, "family": "scaled-" + how}
 
 
+# feasible one-row LPs  a*s x >= b*s  of magnitude 1e5..1e7: answered INFEASIBLE before commit b6b6dd1 (absolute phase-1 tolerance)
+MAGNITUDE_FIXED = [
+    {"c": [0], "A": [[-500000]], "b": [-800000], "minimize": True},
+    {"c": [0], "A": [[-900000]], "b": [-700000], "minimize": True},
+    {"c": [0], "A": [[-9437184.0]], "b": [-7340032.0], "minimize": True},
+    {"c": [1], "A": [[-5000000]], "b": [-1000000], "minimize": True},
+    {"c": [1, 1], "A": [[-300000, -700000], [1, 0]], "b": [-1100000, 2], "minimize": True},
+    # objective cell vs c.x of the returned point (commit 0767acf)
+    {"c": [5, 87960930222079, 5], "A": [[0, 1, 0], [1, 0, 0], [0, -6, -3]], "b": [1, 1, -8], "minimize": True},
+]
+
+
+def gen_magnitude_rows(rng):
+    """a*s x >= b*s style rows (need phase 1) at scale s = 10^4 .. 10^7, one or two rows, optional bound"""
+    s = 10 ** rng.randint(4, 7)
+    n = rng.choice([1, 1, 2])
+    A = [[-rng.randint(1, 19) * s for _ in range(n)]]
+    b = [-rng.randint(1, 19) * s]
+    if rng.random() < 0.5:
+        A.append([rng.randint(0, 3) for _ in range(n)]); b.append(rng.randint(1, 40))
+    c = [rng.randint(0, 5) for _ in range(n)]
+    return {"c": c, "A": A, "b": b, "minimize": True, "max_iter": None, "family": "magnitude-rows"}
+
+
 def gen_decimal(rng):
     """decimal data k/10 written as floats, sums evaluated in floating point at call time (0.1 + 0.2 != 0.3): the LP the floats denote
     exactly and the LP intended in decimals can differ in verdict by 1e-17 effects; both exact verdicts are computed and an answer is
@@ -733,6 +757,8 @@ def run_hard(ctx):
     # ------------------------------------------------------------------ small-size families through oracle + Coq
     std = [gen_wide(ctx.rng, cols) for cols in ([17] * 5 + [33] * 4 + [65] * 3 + [129] * 2 + [257]) * (3 if thorough else 1)]
     std += [gen_scaled(ctx.rng) for _ in range(ctx.budget(80, 1200))]
+    std += [{**k, "max_iter": None, "family": "magnitude-fixed"} for k in MAGNITUDE_FIXED]
+    std += [gen_magnitude_rows(ctx.rng) for _ in range(ctx.budget(40, 400))]
     std += [gen_decimal(ctx.rng) for _ in range(ctx.budget(60, 800))]
     # O: max_iter sweep on runs with several pivots; eps sweep
     sweep_bases = []
@@ -776,9 +802,6 @@ def run_hard(ctx):
             if bad2 is None or (orc2[0] != orc[0] and out.get("status") == orc2[0] and out.get("status") != "OPTIMAL"):
                 ctx.count("decimal_ambiguous" if case.get("alt") else "probe_ambiguous", orc[0] + "/" + orc2[0])
                 bad = None
-        if bad and _in_abs_eps_class(case, out, orc) and any(f.get("id") == KNOWN_ABS_EPS for f in ctx.open_findings()):
-            ctx.known_hit(KNOWN_ABS_EPS, f"solve_lp answers INFEASIBLE on a feasible LP of magnitude >= 1e4, e.g. c={case['c']} A={case['A']} b={case['b']}")
-            continue
         if bad:
             pub = {k: case[k] for k in ("c", "A", "b", "minimize", "max_iter")}
             if "eps" in case:
@@ -877,14 +900,6 @@ def run_hard(ctx):
             case, out = gate_meta[i]
             ctx.violation("gate lemma (round-2 sweep): OPTIMAL answer but Ipm.gate is false on the final iterate",
                           {"kind": "ipm", **case, "impl": {k: v for k, v in out.items() if k != "xyz"}}, no_input=True)
-
-
-KNOWN_ABS_EPS = "C03-simplex-abs-eps-magnitude"
-
-
-def _in_abs_eps_class(case, out, orc):
-    mag = max([abs(v) for v in case["b"]] + [abs(a) for r in case["A"] for a in r] + [0])
-    return out.get("status") == "INFEASIBLE" and orc[0] != "INFEASIBLE" and mag >= 1e4 and case.get("eps") is None
 
 
 def _probe_alt(case):
